@@ -41,10 +41,50 @@ def seeded():
         runpy.run_path(os.path.join(HERE, "tools", "seeded_table.py"), run_name="__main__")
     return buf.getvalue().strip()
 
+NOTES = {
+ "C01": "covering arrays (pairwise quick / 3-wise thorough) + random points; extra content classes `break-even` (lengths around the point where 1 + compressed = input) and `litruns` (RLE literal-count boundaries) added after seeded changes C01-m1 / C03-m2",
+ "C02": "reference in Python (lib/refmpq.py); mismatches are re-extracted under named deviation models (full-path key, transformed dword tail) so that known deviations stay diagnosable and everything else stays strict; reference reader checks `compressed_size` == end of last sector (after C02-m1); direction B includes aligned, path-less, incompressible encrypted single-unit files larger than a sector (after C02-m3); quick runs half of the 144-configuration product chosen by the seed",
+ "C03": "added: a form that differs from the input must be strictly shorter (after C03-m1); `decompress_secure` is also called with file names ending in .mpq/.zip/.rar/.7z/.txt (after C03-m3); random (length, class) points and break-even inputs",
+ "C04": "the independent reference lives in the Rust harness (harness/vh-mpq/src/lib.rs) rather than Python — same independence, no data hand-over; Jenkins fold direction (upper/lower) accepted either way if consistent (the statement does not fix it; observed: upper); BET hashes are also read back from built V3/V4 archives; the Miri slice on the cipher tail paths was not built (no unsafe there; the oracle already covers every length 0..17 x 77 keys)",
+ "C05": "each batch of mutants runs in a forked child of the worker, so aborts are attributed to the exact mutant; signatures are keyed by in-repo site (not entry point); requests >= 256 MiB are refused by the counting allocator; MPQ seeds from ArchiveBuilder and from lib/refmpq.py (deleted markers, user-data prefix, PATCH_FILE entries)",
+ "C06": "read-your-writes is observed, not judged; five history-level trigger predicates carry the known findings; refused additions count towards block-table growth; opens and drops are trapped",
+ "C07": "sources include zero-length, multi-sector, mixed-encryption and break-even files; CLI `mpq rebuild/compare` sampling moved to C20",
+ "C08": "PTCH/BSD0 encoder, RLE (4 styles) and bsdiff apply written in Python inside lib/props/c08.py, self-checked against the repo's hand-made test patches; corrupted variants that can abort the process are isolated one per case",
+ "C09": "nshards=4 (each worker runs pools of up to 32 threads + 4 stress threads); interleaved-duplicate request shapes added to expose a racy memo; CLI half not built",
+ "C10": "paired corruptions (checksum zeroed + data flipped; attribute forged to match) added to the single flips; probes of size-bearing regions and C-API probes run in a forked child under an address-space limit; crashes on corrupted input are tallied for C05, not judged here",
+ "C11": "no Rust worker; names that would leave /verif/scratch if honoured are never generated; grammar extended with leading `.` components and doubled separators (after C11-m3)",
+ "C12": "strace `when=` is per syscall name (see §3 M5); fault set extended with copy_file_range/sendfile/fchmod/fallocate; two-fault sequences; both tiers enumerate every k",
+ "C13": "risk=<predicate> signatures for cases built to carry one known trigger; anim ids from a tiny id space / rotated index entries (after C13-m2)",
+ "C14": "three harness-encoded seed variants provide prototype objects; MCIN size convention accepted either way if consistent",
+ "C15": "legacy group types are struct literals (no Default, no working parser); every case carried a known finding before the repairs, so the worker journals its own samples",
+ "C16": "raw1 additionally requires decoded colour == palette[stored index]",
+ "C17": "seven access paths incl. cached and mmap-lazy; four valid string-block layouts from the independent encoder",
+ "C18": "`range` clause (index <= 63 at the outermost edge) added to corner and centre",
+ "C19": "30 exported functions; calls that cannot return on a given tree are probed on a helper thread; Miri slice of 16 short histories in thorough",
+ "C20": "facts (counts / enumerable sets) from the library object each sub-command prints from are compared with the output; overwrite and unwritable-name slices (after C20-m1/m2)",
+}
+
+
+def asbuilt():
+    import glob
+    man = json.load(open(os.path.join(HERE, "MANIFEST.json")))
+    out = ["| id | level | last quick run: cases / distinct / wall s / known findings seen | as built vs. §6 |", "|----|-------|------------------------------------------------------------------|------------------|"]
+    for c in man["checks"]:
+        p = c["property_id"]
+        ev = {}
+        try:
+            ev = json.load(open(os.path.join(HERE, "evidence", f"{p}.json")))
+        except Exception:
+            pass
+        cov = ev.get("coverage", {})
+        out.append(f"| {p} | {c['level_claimed']['category']} | {cov.get('evaluations','?')} / {cov.get('distinct_nontrivial','?')} / {ev.get('wall_s','?')} / {len(cov.get('known_findings_seen', []))} ({ev.get('tier','?')}) | {NOTES.get(p,'')} |")
+    return "\n".join(out)
+
+
 def main():
     p = os.path.join(HERE, "DESIGN.md")
     s = open(p).read()
-    for key, fn in (("FIXES", fixes), ("KNOWN", known), ("SEEDED", seeded)):
+    for key, fn in (("FIXES", fixes), ("KNOWN", known), ("SEEDED", seeded), ("ASBUILT", asbuilt)):
         b, e = f"<!-- {key}:BEGIN -->", f"<!-- {key}:END -->"
         if b in s and e in s:
             i, j = s.index(b) + len(b), s.index(e)
